@@ -104,6 +104,7 @@ def map_case(draw, kind):
     nk = len(uni)
     vals = values(vt, uni if kt == vt else None)
     ops = []
+    present = set()        # universe indices currently bound (tracked so that removals mostly hit present keys)
     nphase = draw(st.integers(1, 5))
     for _ in range(nphase):
         ph = draw(st.sampled_from(["ins", "ins", "del", "mixed", "mixed", "drain", "special", "bulk"]))
@@ -127,20 +128,28 @@ def map_case(draw, kind):
             elif order == "rand":
                 idx = draw(st.permutations(idx))
             frac = 1.0 if ph == "drain" else draw(st.sampled_from([0.3, 0.6, 1.0]))
+            if ph != "ins" and present and draw(st.integers(0, 4)) > 0:
+                idx = [i for i in idx if i in present] or idx       # mostly remove what is there
             idx = idx[:max(1, int(len(idx) * frac))]
             for i in idx:
                 if ph == "ins":
                     ops.append(["set", i, draw(vals), "stack"])
+                    present.add(i)
                 else:
                     ops.append(["rem", i])
+                    present.discard(i)
         elif ph == "mixed":
             for _ in range(draw(st.integers(1, 14))):
                 o = draw(st.sampled_from(["set", "set", "set", "rem", "rem", "get", "mem"]))
                 i = draw(st.integers(0, nk - 1))
+                if o == "rem" and present and draw(st.integers(0, 3)) > 0:
+                    i = draw(st.sampled_from(sorted(present)))
                 if o == "set":
                     ops.append(["set", i, draw(vals), draw(st.sampled_from(["stack", "stack", "heap"]))])
+                    present.add(i)
                 elif o == "rem":
                     ops.append(["rem", i])
+                    present.discard(i)
                 else:
                     ops.append([o, i, draw(st.sampled_from(["stack", "heap", "aliaskey", "aliasval"]))])
         elif ph == "special":
@@ -150,13 +159,20 @@ def map_case(draw, kind):
                 # the source never sees an updating set (unique keys): its own correctness is not the subject
                 pairs = draw(st.lists(st.tuples(st.integers(0, nk - 1), vals), max_size=10, unique_by=lambda p: p[0]))
                 ops.append(["assign", src_kind, [[i, v] for (i, v) in pairs]])
+                present = set(i for (i, v) in pairs)
             elif o == "reserve":
                 if kind == "Table":
-                    ops.append(["reserve", draw(st.integers(0, 60))])
+                    n_ = draw(st.integers(0, 60))
+                    ops.append(["reserve", n_])
+                    if n_ == 0:
+                        present = set()
                 else:
                     ops.append(["clear"])
+                    present = set()
             else:
                 ops.append([o])
+                if o == "clear":
+                    present = set()
         elif ph == "bulk":
             # filler keys outside the universe push the container through several sizes while the
             # universe keys stay resident
